@@ -3,7 +3,7 @@
    `write_ts_with gen_writer_header` is the model writer driven by the header items the real writer
    emits now. *)
 From Coq Require Import ZArith List Bool Ascii String.
-Require Import SkV.Lib.Base SkV.C18.Model SkV.C18.Gen SkV.C18.Bridge SkV.C18.Proofs.
+Require Import SkV.Lib.Base SkV.C18.Model SkV.C18.Gen SkV.C18.Bridge SkV.C18.Proofs SkV.C18.History.
 Import ListNotations.
 Open Scope string_scope.
 Open Scope list_scope.
@@ -130,6 +130,84 @@ Theorem C18_split_forms_consistent : forall train test Xtr ytr Xte yte,
 Proof. exact split_forms_consistent. Qed.
 Print Assumptions C18_split_forms_consistent.
 
+(* ---- histories of loader calls: "for all bundled datasets and splits", in any order of calls ---- *)
+
+(* the calls of ANY history (loads in any order, in both return forms, with in-place edits of earlier
+   results by the caller in between) return the map of the pure function over the calls *)
+Theorem C18_history_returns_pure : forall train test ops,
+  snd (run_history train test ops ([], [])) = map (pure_load train test) (loads_of ops).
+Proof. exact history_from_scratch. Qed.
+Print Assumptions C18_history_returns_pure.
+
+(* the same call returns the same value whatever came before it *)
+Theorem C18_history_call_independent_of_prefix : forall train test ops1 ops2 c,
+  last (snd (run_history train test (ops1 ++ [HLoad c]) ([], []))) Err = pure_load train test c /\
+  last (snd (run_history train test (ops1 ++ [HLoad c]) ([], []))) Err =
+  last (snd (run_history train test (ops2 ++ [HLoad c]) ([], []))) Err.
+Proof. exact history_call_independent_of_prefix. Qed.
+Print Assumptions C18_history_call_independent_of_prefix.
+
+(* an object the caller did not edit still has, at the end of the history, the value it was returned
+   with: no later call changes it behind the caller's back *)
+Theorem C18_history_untouched_object : forall train test ops k,
+  existsb (mutates k) ops = false ->
+  nth_error (fst (run_history train test ops ([], []))) k =
+  nth_error (snd (run_history train test ops ([], []))) k.
+Proof. exact history_untouched_object_from_scratch. Qed.
+Print Assumptions C18_history_untouched_object.
+
+(* an edit by the caller changes the edited object and nothing else (no other object, no return value) *)
+Theorem C18_history_edit_is_local : forall train test ops k m j, j <> k ->
+  nth_error (fst (run_history train test (ops ++ [HMutate k m]) ([], []))) j =
+    nth_error (fst (run_history train test ops ([], []))) j /\
+  nth_error (fst (run_history train test (ops ++ [HMutate k m]) ([], []))) k =
+    option_map (rmap (mutate m)) (nth_error (fst (run_history train test ops ([], []))) k) /\
+  snd (run_history train test (ops ++ [HMutate k m]) ([], [])) =
+    snd (run_history train test ops ([], [])).
+Proof. exact history_edit_is_local. Qed.
+Print Assumptions C18_history_edit_is_local.
+
+(* the pure function: the six calls, for any two files the parser accepts as labelled *)
+Theorem C18_pure_load_values : forall train test Xtr ytr Xte yte,
+  parse_ts train = Ok (Xtr, Some ytr) -> parse_ts test = Ok (Xte, Some yte) ->
+  let p := pure_load (parse_ts train) (parse_ts test) in
+  p (None, FormXy) = Ok (LXy (Xtr ++ Xte) (ytr ++ yte)) /\
+  p (None, FormFrame) = Ok (LFrame (combine (Xtr ++ Xte) (ytr ++ yte))) /\
+  p (Some Train, FormXy) = Ok (LXy Xtr ytr) /\ p (Some Train, FormFrame) = Ok (LFrame (combine Xtr ytr)) /\
+  p (Some Test, FormXy) = Ok (LXy Xte yte) /\ p (Some Test, FormFrame) = Ok (LFrame (combine Xte yte)) /\
+  map fst (combine (Xtr ++ Xte) (ytr ++ yte)) = Xtr ++ Xte /\
+  map snd (combine (Xtr ++ Xte) (ytr ++ yte)) = ytr ++ yte.
+Proof. exact pure_load_values. Qed.
+Print Assumptions C18_pure_load_values.
+
+(* the source shows no state between calls: no decorator and no global statement on the loaders *)
+Theorem C18_loaders_stateless_in_source :
+  gen_loader_decorators = [] /\ gen_loader_global_statements = [].
+Proof. exact bridge_loaders_stateless. Qed.
+Print Assumptions C18_loaders_stateless_in_source.
+
+(* sensitivity: a loader that parses each file once and hands out / attaches class_val to the kept
+   frame is right on every single call and on every history of (X, y) calls, and WRONG on
+   load(split="train"); load(split="train", return_X_y=True): X comes back with the labels in it *)
+Theorem C18_cached_loader_refuted :
+  (forall Xtr ytr Xte yte c,
+     map Ok (cached_history (Xtr, ytr) (Xte, yte) [c]) =
+     [pure_load (Ok (Xtr, Some ytr)) (Ok (Xte, Some yte)) c]) /\
+  (forall Xtr ytr Xte yte cs, Forall (fun c => snd c = FormXy) cs ->
+     map Ok (cached_history (Xtr, ytr) (Xte, yte) cs) =
+     map (pure_load (Ok (Xtr, Some ytr)) (Ok (Xte, Some yte))) cs) /\
+  let cs := [(Some Train, FormFrame); (Some Train, FormXy)] in
+  let pure := map (pure_load (Ok (fst ex_train, Some (snd ex_train)))
+                             (Ok (fst ex_test, Some (snd ex_test)))) cs in
+  nth_error pure 1 = Some (Ok (LXy (fst ex_train) (snd ex_train))) /\
+  nth_error (cached_history ex_train ex_test cs) 1 =
+    Some (LXy [[[L "1"; L "2"]; [L "a"]]; [[L "3"; L "4"]; [L "b"]]] (snd ex_train)) /\
+  map Ok (cached_history ex_train ex_test cs) <> pure.
+Proof.
+  exact (conj cached_single_call_is_pure (conj cached_xy_histories_are_pure cached_loader_refuted)).
+Qed.
+Print Assumptions C18_cached_loader_refuted.
+
 (* sensitivity: with the header line of the historic defect ("@class_label false", fixed in /repo)
    the model writer produces files the model parser rejects, although every hypothesis of the
    round-trip theorem holds -- the theorem depends on the regenerated tag literals *)
@@ -153,3 +231,16 @@ Example C18_nonvacuous :
     Ok ([[[L "1.000000e+00"; L "-2.500000e-06"; L "3.000000e+09"]]; [[L "0.1"; L "7"; L "-0.25"]]],
         Some [L "aa"; L "b"]).
 Proof. exact ex_nonvacuous. Qed.
+
+(* the history theorems are about a model that runs: a 3-call history with two edits in between *)
+Example C18_history_nonvacuous :
+  let tr := Ok (fst ex_train, Some (snd ex_train)) in
+  let te := Ok (fst ex_test, Some (snd ex_test)) in
+  let ops := [HLoad (Some Train, FormFrame); HMutate 0 (MSetLabel (L "zzz")); HMutate 0 MDropFirst;
+              HLoad (Some Train, FormXy); HLoad (None, FormXy)] in
+  snd (run_history tr te ops ([], [])) =
+    [Ok (LFrame (combine (fst ex_train) (snd ex_train))); Ok (LXy (fst ex_train) (snd ex_train));
+     Ok (LXy (fst ex_train ++ fst ex_test) (snd ex_train ++ snd ex_test))] /\
+  nth_error (fst (run_history tr te ops ([], []))) 0 = Some (Ok (LFrame [([[L "3"; L "4"]], L "b")])) /\
+  existsb (mutates 1) ops = false /\ existsb (mutates 0) ops = true.
+Proof. exact ex_history. Qed.
